@@ -284,9 +284,10 @@ func (s loggingStore) Get(_ context.Context, c cid.Cid) (blocks.Block, error) {
 // loggingGetter: format.NodeGetter for WriteCar; records Get calls and (through the walk
 // function) the links each fetched node reports.
 type getEvent struct {
-	c     cid.Cid
-	data  []byte
-	links []cid.Cid
+	c      cid.Cid
+	data   []byte
+	links  []cid.Cid
+	failed bool
 }
 type loggingGetter struct {
 	store  map[string][]byte
@@ -311,10 +312,12 @@ func decodeFormatNode(c cid.Cid, d []byte) (format.Node, error) {
 func (g *loggingGetter) Get(_ context.Context, c cid.Cid) (format.Node, error) {
 	d, ok := g.store[c.KeyString()]
 	if !ok {
+		g.events = append(g.events, &getEvent{c: c, failed: true})
 		return nil, errNotFound{c}
 	}
 	nd, err := decodeFormatNode(c, d)
 	if err != nil {
+		g.events = append(g.events, &getEvent{c: c, failed: true})
 		return nil, err
 	}
 	g.events = append(g.events, &getEvent{c: c, data: d})
@@ -358,15 +361,14 @@ func (g *loggingGetter) visitSequence(roots []cid.Cid) *walkLog {
 		if gi < len(g.events) && g.events[gi].c.Equals(c) {
 			ev := g.events[gi]
 			gi++
+			if ev.failed { // the fetch failed: the walk stops here, nothing was written for c
+				stop = true
+				return
+			}
 			out.loads = append(out.loads, &loadRec{cid: c.Bytes(), data: ev.data, nread: uint64(len(ev.data)), touched: true})
 			for _, l := range ev.links {
 				visit(l)
 			}
-			return
-		}
-		if _, ok := g.store[c.KeyString()]; !ok {
-			// presented, not in the store and not fetched: this is where the walk failed
-			stop = true
 			return
 		}
 		out.loads = append(out.loads, &loadRec{cid: c.Bytes(), data: d, nread: uint64(len(d)), touched: true})
